@@ -377,9 +377,22 @@ static void c06_ctl(const op_t *op, reg *r, int slot) {
 		if (r->kind != RK_TIMER) ff &= TP_FF_RW_MASK;
 		if (r->kind == RK_TIMER && (ff & TP_FF_T_ABSTIME)) data += (sim_realtime_offset() + sim_now()) / unit_ns(ff);
 		if (r->kind == RK_TIMER && !had_tfd && r->t_abstime != (0 != (ff & TP_FF_T_ABSTIME)) && 0) return;
-		if (mode && item_get(it, "readd", 0)) { rc = tpt_ev_add_args(reg_tpt(r), kind_event(r->kind), fl, ff, data, &r->u); sim_probe("ev.readd"); }
-		else if (mode) rc = tpt_ev_enable_args(1, kind_event(r->kind), fl, ff, data, &r->u);
-		else rc = tpt_ev_enable_args1(1, kind_event(r->kind), &r->u);
+		{
+			int ff0 = sim_fault_fired_op(sim_get_op());
+			if (mode && item_get(it, "readd", 0)) { rc = tpt_ev_add_args(reg_tpt(r), kind_event(r->kind), fl, ff, data, &r->u); sim_probe("ev.readd"); }
+			else if (mode) rc = tpt_ev_enable_args(1, kind_event(r->kind), fl, ff, data, &r->u);
+			else rc = tpt_ev_enable_args1(1, kind_event(r->kind), &r->u);
+			faulted = sim_fault_fired_op(sim_get_op()) > ff0;
+		}
+		if (faulted && r->kind == RK_TIMER) {
+			/* re-arming a timer failed inside (injected): the call reports it, and a timer that could not be programmed
+			 * as asked is gone - it must not go on firing with its OLD programming under the NEW flags */
+			sim_probe("ev.timer_rearm_failed_by_injected_fault");
+			if (0 == rc) { CTLV("ev-ctl-failed", "slot %d: a system call inside the timer re-arm failed (injected) but the call returned 0", slot); return; }
+			r->registered = 0; r->enabled = 0; note_ctl_from(r);
+			if ((r->u.tpdata & 0xffffffffu) != 0 && !r->fuzzy) { CTLV("ev-stale-state", "slot %d: the failed timer re-arm left timer descriptor %d installed (the old programming goes on under the new flags)", slot, (int)(r->u.tpdata & 0xffffffffu)); return; }
+			return;
+		}
 		sim_log("enable slot=%d mode=%d fl=%x ff=%x data=%llu -> %d", slot, mode, fl, ff, (unsigned long long)data, rc);
 		if (r->kind == RK_PROC && rc != 0) return; /* child may be gone already (ESRCH) */
 		if (0 != rc) {
@@ -639,6 +652,7 @@ static void c06_gen(plan_t *p, rng_t *r, int tier) {
 			item_set(&op->it, "mode", rng_chance(r, 700));
 			item_set(&op->it, "readd", rng_chance(r, 250));
 			item_set(&op->it, "own", rng_chance(r, 850));
+			if (kinds[s] == RK_TIMER && rng_chance(r, 80)) { item_t *f = op_add_fault(op, "timerfd_settime"); if (f) { item_set(f, "nth", 1); item_set(f, "err", EINVAL); } }
 			if (kinds[s] == RK_TIMER) gen_timer_args(&op->it, r);
 			else {
 				static const uint16_t fls[] = { 0, 0, TP_F_ONESHOT, TP_F_DISPATCH };
